@@ -5,6 +5,7 @@ import (
 	"fmt"
 	"runtime"
 	"strconv"
+	"strings"
 	"time"
 
 	"google.golang.org/grpc"
@@ -114,14 +115,13 @@ func checkOpen(w *world, mon *lib.Monitor, o openCase) string {
 			"opening a call: unknown methods must give Unimplemented, a mismatched streaming shape Internal, a matching one must open",
 			o, want, got)
 	}
-	if want == "Unimplemented" {
-		if _, malformed := map[string]bool{"Unary": true, "/sc.go.test.TestApi": true}[o.Method]; !malformed {
-			g := openGrpc(w, o)
-			mon.Count("grpc-unknown:" + g)
-			if g != got {
-				mon.Violate("C13/open/"+o.Via+"/unknown-method-differs-from-grpc",
-					"unknown method: wrapper and real gRPC give different codes", o, g, got)
-			}
+	if _, known := realShape[o.Method]; !known && len(o.Method) > 0 && o.Method[0] == '/' && strings.Count(o.Method, "/") == 2 {
+		// a well-formed name of a method the server does not have: real gRPC answers Unimplemented too
+		g := openGrpc(w, o)
+		mon.Count("grpc-unknown:" + g)
+		if g != got {
+			mon.Violate("C13/open/"+o.Via+"/unknown-method-differs-from-grpc",
+				"unknown method: wrapper and real gRPC give different codes", o, g, got)
 		}
 	}
 	return got
